@@ -2,12 +2,14 @@
    Statements only; proofs in Proof/Slices_facts.v over Model/Slices.v (sh/cmd.go in a Go slice memory:
    arrays on a heap, slices (array, off, len, cap), append that stores in place when capacity allows).
 
-   Quantifiers: every heap [h0] of caller-visible arrays (any contents, any lengths), every list of
-   closures over slices of those arrays (any offset/len/cap: spare capacity, overlapping slices, the
-   same array baked into several closures), every history of operations (os.Setenv | call of a closure
-   with any extra slice | direct Run/RunV/RunWith/RunWithV/Output/OutputWith/Exec with any slice and any
-   env map), every initial environment; for the concurrent part every interleaving of the atomic memory
-   actions (allocate / load one cell / store one cell) of two calls.  No size bound anywhere.
+   Quantifiers: every heap [h0] of caller-visible arrays (any contents, any lengths), every history of
+   operations (os.Setenv - MAGEFILE_VERBOSE included | creation of a RunCmd/OutCmd closure over any slice
+   of those arrays, at any point | call of any closure made so far with any extra slice | direct
+   Run/RunV/RunWith/RunWithV/Output/OutputWith/Exec with any slice and any env map), every initial
+   environment, every child behaviour [child_out] (stdout) and [child_exit] (exit status; not 0 = the call
+   fails) as functions of the argv the child is started with - so histories with failing children that
+   print are included; for the concurrent part every interleaving of the atomic memory actions (allocate /
+   load one cell / store one cell) of two calls.  No size bound anywhere.
    The only hypothesis: the slices handed in lie in arrays that exist ([slice_ok]: array id < length h0).
 
    The env map of RunWith/RunWithV/OutputWith/Exec is an immutable VALUE in the model (a list of pairs
@@ -17,51 +19,59 @@ From Mage Require Import Base.Strs Base.Expand Model.Slices Proof.Slices_facts.
 
 Section W.
 Variable child_out : list string -> string.     (* the child's stdout as a function of its argv: external *)
-Variable cls : list closure.
+Variable child_exit : list string -> nat.       (* the child's exit status as a function of its argv: external *)
 Variable h0 : heap.
-Hypothesis closures_in_heap : cls_ok cls h0.
+Variable cls0 : list closure.                   (* closures that exist before the history (may be none) *)
+Hypothesis closures_in_heap : cls_ok h0 cls0.
 
 (* Calling any sh function leaves the caller's arrays unchanged: after EVERY operation of ANY history
    every array that existed before has its original contents in full - the cells before a slice's
    offset, its elements, the cells between len and cap, and the rest of the array. *)
 Theorem C16_inputs_unchanged : forall penv ops, Forall (op_ok h0) ops ->
-  Forall (fun x => firstn (length h0) (snd x) = h0) (run_history child_out true cls penv h0 ops).
-Proof. exact (thm_inputs_unchanged child_out cls h0 closures_in_heap). Qed.
+  Forall (fun x => firstn (length h0) (snd x) = h0) (run_history child_out child_exit true penv cls0 h0 ops).
+Proof. exact (fun penv ops => thm_inputs_unchanged child_out child_exit h0 penv cls0 ops closures_in_heap). Qed.
 
-(* The call of a closure at ANY position of ANY history (first or later, whatever ran before, with or
-   without extra arguments) starts exactly cmd, the baked-in arguments, then the call's arguments, each
-   expanded against the environment at the time of THAT call; an OutCmd closure hands back the child's
-   stdout with one trailing newline removed, a RunCmd closure nothing. *)
+(* The call of a closure at ANY position of ANY history (first or later; whatever ran before - failing
+   calls that printed included; with or without extra arguments; the closure made at any earlier point,
+   under whatever environment) starts exactly cmd, the baked-in arguments, then the call's arguments, each
+   expanded against the environment at the time of THAT call.  An OutCmd closure hands back THIS child's
+   stdout with one trailing newline removed (nothing of earlier calls) and writes nothing to os.Stdout; a
+   RunCmd closure hands back nothing and the child's stdout reaches os.Stdout exactly when mg.Verbose()
+   holds in the environment of THAT call (not of the closure's creation).  The status is this child's. *)
 Theorem C16_closure_is_run : forall penv pre c extra post cl,
-  Forall (op_ok h0) (pre ++ CallClosure c extra :: post) -> nth_error cls c = Some cl ->
+  Forall (op_ok h0) (pre ++ CallClosure c extra :: post) -> nth_error (cls_at cls0 pre) c = Some cl ->
   let env_i := env_at penv pre in
   let argv := map (expand_env env_i) (cl_cmd cl :: contents h0 (cl_baked cl) ++ contents h0 extra) in
-  exists h', nth_error (run_history child_out true cls penv h0 (pre ++ CallClosure c extra :: post)) (length pre)
-             = Some (OCall argv (match cl_kind cl with KRun => None | KOut => Some (trim_nl (child_out argv)) end), h').
-Proof. exact (thm_closure_is_run child_out cls h0 closures_in_heap). Qed.
+  exists h', nth_error (run_history child_out child_exit true penv cls0 h0 (pre ++ CallClosure c extra :: post)) (length pre)
+             = Some (OCall argv
+                           (match cl_kind cl with KRun => None | KOut => Some (trim_nl (child_out argv)) end)
+                           (match cl_kind cl with KRun => if verbose env_i then child_out argv else "" | KOut => "" end)
+                           (child_exit argv), h').
+Proof. exact (fun penv pre c extra post cl => thm_closure_is_run child_out child_exit h0 penv cls0 pre c extra post cl closures_in_heap). Qed.
 
 (* The direct functions, at any position of any history: cmd and the caller's elements, expanded with the
-   env map first and the process environment second (no map for Run/RunV/Output). *)
+   env map first and the process environment second (no map for Run/RunV/Output); text, os.Stdout and status
+   as [finish_direct] says, from this call's argv and environment alone. *)
 Theorem C16_direct_call : forall penv pre f emap cmd args post,
   Forall (op_ok h0) (pre ++ CallDirect f emap cmd args :: post) ->
   let env_i := env_at penv pre in
   let argv := map (expand (mapping (if uses_map f then emap else []) env_i)) (cmd :: contents h0 args) in
-  exists h', nth_error (run_history child_out true cls penv h0 (pre ++ CallDirect f emap cmd args :: post)) (length pre)
-             = Some (OCall argv (out_direct child_out f argv), h').
-Proof. exact (thm_direct_call child_out cls h0 closures_in_heap). Qed.
+  exists h', nth_error (run_history child_out child_exit true penv cls0 h0 (pre ++ CallDirect f emap cmd args :: post)) (length pre)
+             = Some (finish_direct child_out child_exit f env_i argv, h').
+Proof. exact (fun penv pre f emap cmd args post => thm_direct_call child_out child_exit h0 penv cls0 pre f emap cmd args post closures_in_heap). Qed.
 
 (* "exactly like sh.Run or sh.Output": in the same place of the same history, the closure call and the
    direct call of Run (RunCmd) / Output (OutCmd) on ANY slice whose elements are the baked-in arguments
-   followed by the call's arguments are observed identically. *)
+   followed by the call's arguments are observed identically: argv, text handed back, bytes on os.Stdout, status. *)
 Theorem C16_closure_like_direct : forall penv pre c extra post post' cl args,
   Forall (op_ok h0) (pre ++ CallClosure c extra :: post) ->
   Forall (op_ok h0) (pre ++ CallDirect (match cl_kind cl with KRun => FRun | KOut => FOutput end) [] (cl_cmd cl) args :: post') ->
-  nth_error cls c = Some cl ->
+  nth_error (cls_at cls0 pre) c = Some cl ->
   contents h0 args = contents h0 (cl_baked cl) ++ contents h0 extra ->
-  option_map fst (nth_error (run_history child_out true cls penv h0 (pre ++ CallClosure c extra :: post)) (length pre)) =
-  option_map fst (nth_error (run_history child_out true cls penv h0
+  option_map fst (nth_error (run_history child_out child_exit true penv cls0 h0 (pre ++ CallClosure c extra :: post)) (length pre)) =
+  option_map fst (nth_error (run_history child_out child_exit true penv cls0 h0
        (pre ++ CallDirect (match cl_kind cl with KRun => FRun | KOut => FOutput end) [] (cl_cmd cl) args :: post')) (length pre)).
-Proof. exact (thm_closure_like_direct child_out cls h0 closures_in_heap). Qed.
+Proof. exact (fun penv pre c extra post post' cl args => thm_closure_like_direct child_out child_exit h0 penv cls0 pre c extra post post' cl args closures_in_heap). Qed.
 
 (* Concurrent calls: for EVERY interleaving of the atomic memory actions of two calls (two calls of one
    closure, of two closures sharing a baked-in array, of a closure and a direct function, ...) started
@@ -69,46 +79,46 @@ Proof. exact (thm_closure_like_direct child_out cls h0 closures_in_heap). Qed.
    (The process environment is constant while the two calls overlap.) *)
 Theorem C16_concurrent : forall penv oA oB pA fA pB fB,
   op_ok h0 oA -> op_ok h0 oB ->
-  call_prog child_out true cls penv oA = Some (pA, fA) ->
-  call_prog child_out true cls penv oB = Some (pB, fB) ->
+  call_prog child_out child_exit true cls0 penv oA = Some (pA, fA) ->
+  call_prog child_out child_exit true cls0 penv oB = Some (pB, fB) ->
   forall h a b hf, firstn (length h0) h = h0 -> par_run pA pB h a b hf ->
-  a = spec_argv cls h0 penv oA /\ b = spec_argv cls h0 penv oB /\ firstn (length h0) hf = h0.
-Proof. exact (concurrent_calls child_out cls h0 closures_in_heap). Qed.
+  a = spec_argv h0 cls0 penv oA /\ b = spec_argv h0 cls0 penv oB /\ firstn (length h0) hf = h0.
+Proof. exact (fun penv oA oB pA fA pB fB => concurrent_calls child_out child_exit h0 cls0 penv oA oB pA fA pB fB closures_in_heap). Qed.
 
 (* every schedule is such an interleaving *)
 Theorem C16_concurrent_schedules : forall penv oA oB pA fA pB fB sched,
   op_ok h0 oA -> op_ok h0 oB ->
-  call_prog child_out true cls penv oA = Some (pA, fA) ->
-  call_prog child_out true cls penv oB = Some (pB, fB) ->
+  call_prog child_out child_exit true cls0 penv oA = Some (pA, fA) ->
+  call_prog child_out child_exit true cls0 penv oB = Some (pB, fB) ->
   par_exec sched pA pB h0 =
-    (spec_argv cls h0 penv oA, spec_argv cls h0 penv oB, snd (par_exec sched pA pB h0)) /\
+    (spec_argv h0 cls0 penv oA, spec_argv h0 cls0 penv oB, snd (par_exec sched pA pB h0)) /\
   firstn (length h0) (snd (par_exec sched pA pB h0)) = h0.
-Proof. exact (thm_concurrent_schedules child_out cls h0 closures_in_heap). Qed.
+Proof. exact (fun penv oA oB pA fA pB fB sched => thm_concurrent_schedules child_out child_exit h0 cls0 penv oA oB pA fA pB fB sched closures_in_heap). Qed.
 End W.
 
 (* the defect repaired by "fix: sh functions modified the caller's argument slice", in the same model
    with [fixed = false]: the three statements above are FALSE of the earlier code *)
-Theorem C16_closure_is_run_before_repair_refuted : forall child_out,
-  exists cls h0 penv pre c extra post,
-    cls_ok cls h0 /\ Forall (op_ok h0) (pre ++ CallClosure c extra :: post) /\
-    exists ob h', nth_error (run_history child_out false cls penv h0 (pre ++ CallClosure c extra :: post)) (length pre) = Some (ob, h') /\
-                  ob = OCall ["echo"; "one"] (Some (trim_nl (child_out ["echo"; "one"]))) /\
-                  spec_argv cls h0 (env_at penv pre) (CallClosure c extra) = ["echo"; "two"] /\
+Theorem C16_closure_is_run_before_repair_refuted : forall child_out child_exit,
+  exists h0 penv pre c extra post,
+    Forall (op_ok h0) (pre ++ CallClosure c extra :: post) /\
+    exists ob h', nth_error (run_history child_out child_exit false penv [] h0 (pre ++ CallClosure c extra :: post)) (length pre) = Some (ob, h') /\
+                  ob = OCall ["echo"; "one"] (Some (trim_nl (child_out ["echo"; "one"]))) "" (child_exit ["echo"; "one"]) /\
+                  spec_argv h0 (cls_at [] pre) (env_at penv pre) (CallClosure c extra) = ["echo"; "two"] /\
                   firstn (length h0) h' <> h0.
 Proof. exact thm_closure_is_run_before_repair_refuted. Qed.
 
-Theorem C16_inputs_unchanged_before_repair_refuted : forall child_out,
+Theorem C16_inputs_unchanged_before_repair_refuted : forall child_out child_exit,
   exists h0 penv ops, Forall (op_ok h0) ops /\
-    exists ob h', In (ob, h') (run_history child_out false [] penv h0 ops) /\ firstn (length h0) h' <> h0.
+    exists ob h', In (ob, h') (run_history child_out child_exit false penv [] h0 ops) /\ firstn (length h0) h' <> h0.
 Proof. exact thm_inputs_unchanged_before_repair_refuted. Qed.
 
-Theorem C16_concurrent_before_repair_refuted : forall child_out,
+Theorem C16_concurrent_before_repair_refuted : forall child_out child_exit,
   exists cls h0 penv oA oB pA fA pB fB a b hf,
-    cls_ok cls h0 /\ op_ok h0 oA /\ op_ok h0 oB /\
-    call_prog child_out false cls penv oA = Some (pA, fA) /\
-    call_prog child_out false cls penv oB = Some (pB, fB) /\
+    cls_ok h0 cls /\ op_ok h0 oA /\ op_ok h0 oB /\
+    call_prog child_out child_exit false cls penv oA = Some (pA, fA) /\
+    call_prog child_out child_exit false cls penv oB = Some (pB, fB) /\
     par_run pA pB h0 a b hf /\
-    a <> spec_argv cls h0 penv oA /\ firstn (length h0) hf <> h0.
+    a <> spec_argv h0 cls penv oA /\ firstn (length h0) hf <> h0.
 Proof. exact thm_concurrent_before_repair_refuted. Qed.
 
 Print Assumptions C16_inputs_unchanged.
@@ -135,17 +145,21 @@ Theorem C16_overlap_admitted :
 Proof. exact overlap_admitted. Qed.
 Print Assumptions C16_overlap_admitted.
 
-(* non-vacuity: a closure with cmd "$C", baked-in slice off 1 / len 2 / cap 3 of a 4-cell array, called
-   without and with extra arguments around a Setenv, direct Output and RunWith on the same arrays;
-   and the interleaving that breaks the old code, run on the current code *)
+(* non-vacuity: closures made inside the history (cmd "$C", baked-in slices off 1 of a 4-cell array); an OutCmd
+   closure called, called with a FAILING child that prints (status 3, text handed back), called again (its own
+   text only); a RunCmd closure made while not verbose, called (os.Stdout silent), MAGEFILE_VERBOSE=1, called
+   again (os.Stdout gets the child's stdout); direct Output and RunWith; and the interleaving that breaks the
+   old code, run on the current code *)
 Example C16_nonvacuous :
-  cls_ok nv_cls nv_h0 /\ Forall (op_ok nv_h0) nv_ops /\
-  map fst (run_history nv_out true nv_cls nv_env nv_h0 nv_ops) =
-    [OCall ["echo"; "-n"; "one"] (Some "-n one"); OSet; OCall ["echo"; "-n"; "two"; "twox"; "y"] (Some "-n two twox y");
-     OCall ["echo"; "-n"; "two"] (Some "-n two"); OCall ["echo"; "mx"] None] /\
-  Forall (fun x => firstn 2 (snd x) = nv_h0) (run_history nv_out true nv_cls nv_env nv_h0 nv_ops) /\
-  par_exec w3_sched (closure_call true (hd {| cl_kind := KRun; cl_cmd := ""; cl_baked := nil_slice |} w3_cls) [] (sl 1 0 1 1))
-                    (closure_call true (hd {| cl_kind := KRun; cl_cmd := ""; cl_baked := nil_slice |} w3_cls) [] (sl 2 0 1 1)) w3_h0
+  Forall (op_ok nv_h0) nv_ops /\
+  map fst (run_history nv_out nv_exit true nv_env [] nv_h0 nv_ops) =
+    [OMk; OMk; OCall ["echo"; "-n"; "one"] (Some "-n one") "" 0; OSet;
+     OCall ["echo"; "-n"; "two"; "twox"; "y"; "--exit=3"] (Some "-n two twox y --exit=3") "" 3;
+     OCall ["echo"; "-n"; "two"; "twox"; "y"] (Some "-n two twox y") "" 0;
+     OCall ["echo"; "-n"] None "" 0; OSet; OCall ["echo"; "-n"] None ("-n" ++ nl) 0;
+     OCall ["echo"; "-n"; "two"] (Some "-n two") "" 0; OCall ["echo"; "mx"] None ("mx" ++ nl) 0] /\
+  Forall (fun x => firstn 2 (snd x) = nv_h0) (run_history nv_out nv_exit true nv_env [] nv_h0 nv_ops) /\
+  par_exec w3_sched (closure_call true w3_cl [] (sl 1 0 1 1)) (closure_call true w3_cl [] (sl 2 0 1 1)) w3_h0
   = (["echo"; "x"; "a"], ["echo"; "x"; "b"], w3_h0 ++ [["x"; "a"]; ["x"; "b"]; ["x"; "a"]; ["x"; "b"]]).
 Proof. exact nonvacuous_c16. Qed.
 Print Assumptions C16_nonvacuous.
